@@ -887,7 +887,7 @@ def _distance_matrix_idxs(block, nb_series):
             idxsl_r.append(r)
             idxsl_c.append(c)
     if np is not None:
-        idxs = (np.array(idxsl_r), np.array(idxsl_c))
+        idxs = (np.array(idxsl_r, dtype=int), np.array(idxsl_c, dtype=int))
     else:
         idxs = (idxsl_r, idxsl_c)
     return idxs
